@@ -244,7 +244,7 @@ func genOp(r *Rng, s *snap, step, n int) Op {
 func scenario(r *Rng, st Setup) []Op {
 	one := "1.000000000000000000"
 	yes := func(a int) Vote { return Vote{Voter: a, Opts: []VoteOpt{{0, one}}} }
-	switch r.Intn(6) {
+	switch r.Intn(7) {
 	case 0: // 7 % slash then repeated small mints
 		ops := []Op{{Kind: "delegate", A: 0, V: 1, Amt: "1000000007"}, {Kind: "slash", V: 1, Power: 1000 + bigOf(st.SelfDel[0]).Int64()/1_000_000, Factor: "0.070000000000000000"}}
 		for k := 0; k < 6; k++ {
@@ -265,6 +265,10 @@ func scenario(r *Rng, st Setup) []Op {
 		return []Op{{Kind: "delegate", A: 0, V: 1, Amt: "9000000"}, {Kind: "mint", A: 0, V: 1, Amt: "2000000"}, {Kind: "send", A: 0, B: 1, V: 1, Amt: "1000"},
 			{Kind: "delegate", A: 1, V: 2, Amt: "4000000"}, {Kind: "redelegate", A: 1, V: 2, W: 1, Amt: "1000000"},
 			{Kind: "mint", A: 1, V: 1, Amt: "500"}, {Kind: "burn", A: 1, V: 1, Amt: "10"}}
+	case 5: // the module account ends up the last delegator of an unbonded validator; the holder redeems everything
+		return []Op{{Kind: "delegate", A: 3, V: 3, Amt: "5000000"}, {Kind: "mint", A: 3, V: 3, Amt: "5000000"},
+			{Kind: "undelegate", A: 7, V: 3, Amt: st.SelfDel[2]}, {Kind: "endblock"}, {Kind: "endblock", Mature: true},
+			{Kind: "burn", A: 3, V: 3, Amt: "5000000"}, {Kind: "burn", A: 3, V: 3, Amt: "4999999"}}
 	default: // operator conversions against the self-delegation minimum
 		sd := bigOf(st.SelfDel[1])
 		ms := bigOf(st.MinSelf[1])
